@@ -217,6 +217,10 @@ func (i *Index) AddDesc(d Descriptor, opts ...IndexOpt) {
 	// Move entries from WithChildren option to childManifest list.
 	// These are from child descriptors when an index is later pushed.
 	for _, cd := range conf.children {
+		// a descriptor that is not listed as a manifest references a plain blob
+		if !MediaTypeImage(cd.MediaType) && !MediaTypeIndex(cd.MediaType) {
+			continue
+		}
 		known := false
 		for mi := range i.Manifests {
 			if i.Manifests[mi].Digest == cd.Digest {
